@@ -49,6 +49,7 @@ def run(ck: Checker, prog: Program, tier: str):
     ck.guard(_r5, ck, rel)
     ck.guard(_r5, ck, cla)
     ck.guard(_peak_index, ck, prog)
+    ck.guard(_arguments_untouched, ck, prog)
     # peak_index rests on the package's peak finder (rule of C08)
     from . import c08
     with ck.borrow(c08, "C16.R4+"):
@@ -472,3 +473,24 @@ def _peak_index(ck: Checker, prog: Program):
         ck.ok("C16.R2", f.qualname, "peak index = highest local maximum of the curve (index axis)")
     else:
         ck.violation("C16.R2", f.qualname, "peak index", "peak_index is not the index of the highest local maximum found by HvsrCurve._find_peak_unbounded", loc=f.loc())
+
+
+def _arguments_untouched(ck: Checker, prog: Program):
+    """The verdict functions only read the curves they are given (interprocedural effect summaries; a slice of an argument is a
+    view of it): a second call on the same arrays must see the same data."""
+    from .common import engine, group_effects, describe_effect, chain_text
+    eng = engine(prog)
+    n = 0
+    for q in ("sesame.reliability", "sesame.clarity", "sesame.trim_curve", "sesame.peak_index"):
+        f = prog.funcs.get(q)
+        if f is None:
+            continue
+        n += 1
+        s = eng.summary(f)
+        effs = [e for e in s.effects if e.origin[0] in ("P", "G")]
+        if not effs:
+            ck.ok("C16.R5", q, "arguments and module state are only read", detail=f"{len(s.effects)} effects in the summary")
+        for (func, text), es in group_effects(prog, effs).items():
+            ck.violation("C16.R5", func, text, f"{q} modifies what it is given ({describe_effect(es[0])}): the verdicts of a later call on the same curves "
+                         f"would depend on this one", loc=es[0].chain[0].loc, path=chain_text(es[0]))
+    ck.floor("C16.R5", n, 3, "verdict functions")
